@@ -208,6 +208,9 @@ class Check:
         self.prop, self.tier, self.level = prop, tier, level
         self.t0 = time.time()
         self.seed = seed()
+        REPLAYS.mkdir(exist_ok=True)
+        for old in REPLAYS.glob(f"{prop}-{self.seed}-*.json"):   # replays of an earlier run with this seed
+            old.unlink()
         self.obligations: list[dict] = []   # {name, ok, detail}
         self.streams: dict[str, dict] = {}  # name -> {cases, disagreements, samples}
         self.failures: list[dict] = []      # failing inputs on the real code
